@@ -135,6 +135,15 @@ def check_c02(pid, tier, seed, replay):
     obs = M.run_obs(ck, cpath2, "Tgen", levels="0,1,2", bound=700, timeout_ms=800)
     M.validate_traces(ck, obs, 14, classify_c02, "T-generated")
     tcases = tcases + gen[nfixed:]
+    # label / conditional jump / return-jump stress without any I/O stack: level 2 pre-executes these
+    # completely (or up to its budget), so every jump rule is exercised inside the speculation
+    rj = [{"prog": M.retjump_soup(rng, rng.randint(6, 14)), "input": []} for _ in range(110 if quick else 3000)]
+    rj += [{"prog": M.fwdjump_family(rng), "input": []} for _ in range(40 if quick else 1000)]
+    cpath3 = os.path.join(work, "cases_rj.json")
+    M.write_cases(cpath3, rj)
+    obs = M.run_obs(ck, cpath3, "Trj", levels="0,1,2", bound=500, timeout_ms=600)
+    M.validate_traces(ck, obs, 14, classify_c02, "T-retjump")
+    tcases = tcases + rj
     ck.cov["vacuity"]["T_programs"] = len(tcases)
     ck.cov["rule"] = "M: HyOptimize refines HyMachine on every program of the slices; R: those programs through `hyeong run -O0/-O1/-O2`; T: loop/IO program families and seeded structured programs"
     return ck.finish()
